@@ -101,4 +101,11 @@ CHECKS["C17"] = {
   "design_ref": "DESIGN.md §5 C17, §2.4",
   "note": "Hook-point granularity; real-time timers (60 ms / 4 s); one node reused across scenarios; fake EPMD through the guarded port override.",
 }
+CHECKS["C19"] = {
+  "level": "model_checking",
+  "technique": "TLA+ spec of inbound routing and receiver survival (Inbound.tla) model-checked by TLC; TLC-generated frame sequences sent by a scripted peer over TCP to a real Node with recording process handlers, receiver followed through guarded hooks, outcomes compared with the model",
+  "text": "TLC checks ExactRouting, StopsOnlyOnFatal and DeregisteredIffStopped over all sequences of 3 frames (5 good kinds x live / named / terminated / never-existing recipients and an outstanding call, 9 junk kinds, 3 fatal kinds, a local termination in between). Sequences (every kind at both positions of 2-frame sequences, TLC-simulated 5-frame sequences) are sent to a real node: each handler must have been given exactly the model's deliveries in order with sender / reference / reason intact, the outstanding call gets its reply, and the connection stays registered and usable exactly when the model says the receiver is alive. Thorough tier adds real-time quiet periods with ticks (known finding C19-idle-timeout).",
+  "design_ref": "DESIGN.md §5 C19",
+  "note": "One connection, pass-through frames only (the node's receiver reads nothing else); fake EPMD via the guarded port override; delivery observed after a 30 ms settle time.",
+}
 NOT_APPLICABLE = {}
